@@ -96,6 +96,17 @@ type vfE7Lookupd struct {
 	Nodes      []vfE7Producer
 	LookupFail vfE7Fail
 	Lookup     []vfE7Producer
+	PerTopic   []vfE7TopicAns // answers of /lookup?topic= and /channels?topic= for particular topics (section `I` of the op line)
+}
+
+// vfE7TopicAns: what one nsqlookupd says about one topic. Without an entry /lookup?topic= answers with Lookup
+// and /channels?topic= with an empty list.
+type vfE7TopicAns struct {
+	Topic        string
+	LookupFail   vfE7Fail
+	Lookup       []vfE7Producer
+	ChannelsFail vfE7Fail
+	Channels     []string
 }
 
 type vfE7Nsqd struct {
@@ -107,6 +118,7 @@ type vfE7Nsqd struct {
 	Version   string
 	StatsFail vfE7Fail
 	Topics    []vfE7Topic
+	NoBcast   bool // /info without broadcast_address and http_port (an nsqd from before these members)
 }
 
 type vfE7VWorld struct {
@@ -234,7 +246,12 @@ func (w vfE7VWorld) tokens() string {
 			sb.WriteString(" F")
 		} else {
 			a, b, c := vfE7Ver(n.Version)
-			fmt.Fprintf(&sb, " O %s %s 127.0.0.1:%d %s %d %d %d", vfE7S(n.Hostname), n.Sym, n.TCPPort, vfE7S(n.Version), a, b, c)
+			if n.NoBcast {
+				// what Producer.HTTPAddress() / TCPAddress() make of the answer as it is: ":0", ":<tcp_port>"
+				fmt.Fprintf(&sb, " O %s :0 :%d %s %d %d %d", vfE7S(n.Hostname), n.TCPPort, vfE7S(n.Version), a, b, c)
+			} else {
+				fmt.Fprintf(&sb, " O %s %s 127.0.0.1:%d %s %d %d %d", vfE7S(n.Hostname), n.Sym, n.TCPPort, vfE7S(n.Version), a, b, c)
+			}
 		}
 		if n.StatsFail.failed() {
 			sb.WriteString(" F")
@@ -242,6 +259,35 @@ func (w vfE7VWorld) tokens() string {
 			fmt.Fprintf(&sb, " O %d", len(n.Topics))
 			for _, t := range n.Topics {
 				t.tokens(&sb)
+			}
+		}
+	}
+	// per-topic answers of the nsqlookupds (only present when some nsqlookupd has any)
+	nI := 0
+	for _, l := range w.Lookupds {
+		nI += len(l.PerTopic)
+	}
+	if nI > 0 {
+		fmt.Fprintf(&sb, " I %d", nI)
+		for _, l := range w.Lookupds {
+			for _, a := range l.PerTopic {
+				fmt.Fprintf(&sb, " %s %s", l.Sym, vfE7S(a.Topic))
+				if a.LookupFail.failed() {
+					sb.WriteString(" F")
+				} else {
+					fmt.Fprintf(&sb, " O %d", len(a.Lookup))
+					for _, p := range a.Lookup {
+						p.tokens(&sb)
+					}
+				}
+				if a.ChannelsFail.failed() {
+					sb.WriteString(" F")
+				} else {
+					fmt.Fprintf(&sb, " O %d", len(a.Channels))
+					for _, c := range a.Channels {
+						sb.WriteString(" " + vfE7S(c))
+					}
+				}
 			}
 		}
 	}
@@ -591,10 +637,36 @@ func (c *vfE7VCluster) serve(sym string, viaTLS bool) http.Handler {
 					sb.WriteString(vfE7J(t))
 				}
 				sb.WriteString("]}")
+			case "/channels":
+				f, chs := vfE7Fail(0), []string(nil)
+				for _, a := range l.PerTopic {
+					if a.Topic == r.URL.Query().Get("topic") {
+						f, chs = a.ChannelsFail, a.Channels
+						break
+					}
+				}
+				if f != 0 {
+					vfE7FailWith(w, f)
+					return
+				}
+				sb.WriteString(`{"channels":[`)
+				for i, t := range chs {
+					if i > 0 {
+						sb.WriteString(",")
+					}
+					sb.WriteString(vfE7J(t))
+				}
+				sb.WriteString("]}")
 			case "/nodes", "/lookup":
 				f, ps := l.NodesFail, l.Nodes
 				if r.URL.Path == "/lookup" {
 					f, ps = l.LookupFail, l.Lookup
+					for _, a := range l.PerTopic {
+						if a.Topic == r.URL.Query().Get("topic") {
+							f, ps = a.LookupFail, a.Lookup
+							break
+						}
+					}
 				}
 				if c.upgradeGate(w, sym, viaTLS, &f) {
 					return
@@ -637,8 +709,12 @@ func (c *vfE7VCluster) serve(sym string, viaTLS bool) http.Handler {
 					return
 				}
 				_, port, _ := net.SplitHostPort(c.addrOf(sym))
-				fmt.Fprintf(&sb, `{"version":%s,"broadcast_address":"127.0.0.1","hostname":%s,"http_port":%s,"tcp_port":%d,"start_time":1}`,
-					vfE7J(n.Version), vfE7J(n.Hostname), port, n.TCPPort)
+				if n.NoBcast {
+					fmt.Fprintf(&sb, `{"version":%s,"hostname":%s,"tcp_port":%d,"start_time":1}`, vfE7J(n.Version), vfE7J(n.Hostname), n.TCPPort)
+				} else {
+					fmt.Fprintf(&sb, `{"version":%s,"broadcast_address":"127.0.0.1","hostname":%s,"http_port":%s,"tcp_port":%d,"start_time":1}`,
+						vfE7J(n.Version), vfE7J(n.Hostname), port, n.TCPPort)
+				}
 			case "/stats":
 				f := n.StatsFail
 				if c.upgradeGate(w, sym, viaTLS, &f) {
@@ -793,6 +869,26 @@ func (cl *vfE7VCluster) render(kind string, status int, body []byte) string {
 			d.Topics[i] = vfE7S(d.Topics[i])
 		}
 		return "200 " + warn(d.Message) + " " + strings.Join(d.Topics, ",")
+	case "inactive":
+		var d struct {
+			Topics  map[string][]string `json:"topics"`
+			Message string              `json:"message"`
+		}
+		if err := json.Unmarshal(body, &d); err != nil {
+			return "200 undecodable " + err.Error()
+		}
+		var es []string
+		for t, chs := range d.Topics {
+			cs := make([]string, len(chs))
+			for i, c := range chs {
+				cs[i] = vfE7S(c)
+			}
+			if len(cs) == 0 {
+				cs = []string{"-"}
+			}
+			es = append(es, vfE7S(t)+"="+strings.Join(cs, "+")) // channel lists in the order returned (sorted by the code)
+		}
+		return "200 " + warn(d.Message) + " I[" + vfE7JoinSorted(es, ";") + "]"
 	case "topic":
 		var t vfE7OutTopic
 		if err := json.Unmarshal(body, &t); err != nil {
@@ -974,6 +1070,8 @@ func (e *vfE7VEnv) run(w vfE7VWorld, r vfE7VReq) {
 	switch r.kind {
 	case "topics":
 		path = "/api/topics"
+	case "inactive":
+		path = "/api/topics?inactive=true"
 	case "topic":
 		path = "/api/topics/" + strings.ReplaceAll(r.a, "#", "%23")
 	case "channel":
@@ -1115,7 +1213,15 @@ var vfE7HostPool = []string{"alpha", "beta", "gamma", "alpha", "delta"}
 var vfE7VersionPool = []string{"1.3.0", "1.2.1", "1.3.0", "0.3.8", "garbage", "1.10.0", ""}
 
 func vfE7Counter(r *vfRand) int64 {
-	switch r.Intn(6) {
+	switch r.Intn(7) {
+	case 6: // negative: nsqd never reports one, a broken or hostile upstream may (the sums are still sums)
+		switch r.Intn(3) {
+		case 0:
+			return -1
+		case 1:
+			return -int64(r.Intn(100000))
+		}
+		return -int64(r.Next() >> 3)
 	case 0, 1:
 		return 0
 	case 2:
@@ -1211,6 +1317,18 @@ func vfE7GenWorld(r *vfRand, lookupdMode bool, pFail int) vfE7VWorld {
 				n.Topics = append(n.Topics, vfE7GenTopic(r, t))
 			}
 		}
+		if !lookupdMode {
+			// /info of an old nsqd: no broadcast_address / http_port, or an empty hostname (GetNSQDTopicProducers falls back
+			// on the configured address, GetNSQDProducers does not)
+			switch r.Intn(12) {
+			case 0:
+				n.NoBcast = true
+			case 1:
+				n.Hostname = ""
+			case 2:
+				n.NoBcast, n.Hostname = true, ""
+			}
+		}
 		w.Nsqds = append(w.Nsqds, n)
 	}
 	// what an nsqd registered is the same on every nsqlookupd (only the peer address differs); which record
@@ -1274,9 +1392,57 @@ func vfE7GenWorld(r *vfRand, lookupdMode bool, pFail int) vfE7VWorld {
 	return w
 }
 
+// vfE7AddPerTopic: per-topic answers for the `?inactive=true` view: about half of the topics have no producer on any
+// nsqlookupd (a few on some only), each with some channels; pFail/8 of these answers fail.
+func vfE7AddPerTopic(r *vfRand, w vfE7VWorld, pFail int) vfE7VWorld {
+	fail := func() vfE7Fail {
+		if r.Intn(8) < pFail {
+			return []vfE7Fail{1, 2, 5, 6}[r.Intn(4)]
+		}
+		return 0
+	}
+	inactive := map[string]int{}
+	for _, t := range vfE7TopicPool {
+		inactive[t] = r.Intn(4) // 0,1: no producer anywhere; 2: producers on every nsqlookupd that knows one; 3: mixed
+	}
+	ls := append([]vfE7Lookupd(nil), w.Lookupds...)
+	for i := range ls {
+		ls[i].PerTopic = nil
+		for _, t := range append(append([]string(nil), vfE7TopicPool...), "ghost_topic") {
+			if r.Intn(6) == 0 {
+				continue // no entry: the default answers
+			}
+			a := vfE7TopicAns{Topic: t, LookupFail: fail(), ChannelsFail: fail()}
+			if inactive[t] == 2 || (inactive[t] == 3 && r.Intn(2) == 0) {
+				for _, p := range ls[i].Nodes {
+					if r.Intn(2) == 0 {
+						a.Lookup = append(a.Lookup, p)
+					}
+				}
+				if r.Intn(10) == 0 {
+					a.Lookup = append(a.Lookup, vfE7Producer{Null: true})
+				}
+			}
+			for _, c := range vfE7ChanPool {
+				if r.Intn(3) == 0 {
+					a.Channels = append(a.Channels, c)
+				}
+			}
+			if len(a.Channels) > 0 && r.Intn(5) == 0 {
+				a.Channels = append(a.Channels, a.Channels[0])
+			}
+			ls[i].PerTopic = append(ls[i].PerTopic, a)
+		}
+	}
+	w.Lookupds = ls
+	return w
+}
+
 func vfE7GenReq(r *vfRand, w vfE7VWorld) vfE7VReq {
 	topic := vfE7TopicPool[r.Intn(len(vfE7TopicPool))]
-	switch r.Intn(10) {
+	switch r.Intn(12) {
+	case 10, 11:
+		return vfE7VReq{kind: "inactive"}
 	case 0:
 		return vfE7VReq{kind: "topics"}
 	case 1, 2, 3:
@@ -1300,12 +1466,47 @@ func TestVerifE7Views(t *testing.T) {
 	for i := 0; i < n; i++ {
 		w := vfE7GenWorld(rng, i%2 == 0, []int{0, 0, 1, 3, 6}[rng.Intn(5)])
 		for k := 0; k < 3; k++ {
-			e.run(w, vfE7GenReq(rng, w))
+			rq := vfE7GenReq(rng, w)
+			if rq.kind == "inactive" && len(w.Lookupds) > 0 {
+				e.run(vfE7AddPerTopic(rng, w, []int{0, 1, 3}[rng.Intn(3)]), rq)
+				e.hist["inactive-pertopic"]++
+				continue
+			}
+			e.run(w, rq)
+		}
+	}
+	// `?inactive=true`: two nsqlookupds, topic t1 with and without producers, every subset of the four per-topic
+	// answers failing (x the /topics answers)
+	for round := 0; round < 2; round++ {
+		for mask := 0; mask < 64; mask++ {
+			var w vfE7VWorld
+			p := vfE7Producer{Hostname: "alpha", Sym: "N0", TCPPort: 4150, Version: "1.3.0", Remote: "10.0.0.1:1", Topics: []string{"t1"}, Tombstones: []bool{false}}
+			for i := 0; i < 2; i++ {
+				l := vfE7Lookupd{Sym: fmt.Sprintf("L%d", i), Topics: []string{"t1", "t2"}[:1+i], Nodes: []vfE7Producer{p}, Lookup: []vfE7Producer{p}}
+				a := vfE7TopicAns{Topic: "t1", Channels: [][]string{{"c2", "c1"}, {"c1", "archive"}}[i]}
+				if round == 1 && i == 1 {
+					a.Lookup = []vfE7Producer{p}
+				}
+				how := []vfE7Fail{1, 2, 5, 6}[(mask+i)%4]
+				if mask&(1<<uint(2*i)) != 0 {
+					a.LookupFail = how
+				}
+				if mask&(1<<uint(2*i+1)) != 0 {
+					a.ChannelsFail = how
+				}
+				if mask&(1<<uint(4+i)) != 0 {
+					l.TopicsFail = how
+				}
+				l.PerTopic = []vfE7TopicAns{a}
+				w.Lookupds = append(w.Lookupds, l)
+			}
+			e.run(w, vfE7VReq{kind: "inactive"})
+			e.hist["inactive-subsets"]++
 		}
 	}
 	// every subset of failing upstream answers, both modes, every view
 	reqs := []vfE7VReq{{kind: "topics"}, {kind: "topic", a: "t1"}, {kind: "channel", a: "t1", b: "c1"}, {kind: "nodes"},
-		{kind: "node", a: "N0"}, {kind: "node", a: "N1"}, {kind: "counter"}}
+		{kind: "node", a: "N0"}, {kind: "node", a: "N1"}, {kind: "counter"}, {kind: "inactive"}}
 	for mode := 0; mode < 2; mode++ {
 		base := vfE7GenWorld(rng, mode == 0, 0)
 		for len(base.Nsqds) != 2 || (mode == 0 && len(base.Lookupds) != 2) || (mode == 1 && len(base.NsqdAddrs) != 2) {
@@ -1566,6 +1767,29 @@ func TestVerifE7Malformed(t *testing.T) {
 				for _, r := range reqs {
 					e.run(w, r)
 				}
+				// the same inconsistent answer next to a FAILING peer: the view is still built from the rest and now
+				// carries a warning (the warning and the guard against the oddity are independent)
+				if kind == 12 || kind == 13 || kind == 14 || kind == 17 {
+					continue
+				}
+				wp := w
+				wp.Nsqds = append([]vfE7Nsqd(nil), w.Nsqds...)
+				wp.Lookupds = append([]vfE7Lookupd(nil), w.Lookupds...)
+				how := vfE7Fail([]int{1, 2, 3, 5, 6, 9}[rng.Intn(6)])
+				if mode == 0 {
+					wp.Lookupds = append(wp.Lookupds, vfE7Lookupd{Sym: "L1", TopicsFail: how, NodesFail: how, LookupFail: how})
+				} else if rng.Intn(2) == 0 || len(wp.Nsqds) < 2 {
+					wp.NsqdAddrs = append(append([]string(nil), w.NsqdAddrs...), "X0")
+				}
+				if len(wp.Nsqds) > 1 && rng.Intn(2) == 0 {
+					wp.Nsqds[len(wp.Nsqds)-1].StatsFail = how
+				}
+				for i, r := range reqs {
+					if i < 4 || r.kind == "counter" {
+						e.run(wp, r)
+						e.hist["malformed-x-failing-peer"]++
+					}
+				}
 			}
 		}
 	}
@@ -1708,7 +1932,7 @@ func vfE7ParseOp(line string) (vfE7VWorld, vfE7VReq) {
 			n.InfoFail = 1
 		} else {
 			n.Hostname = p.s()
-			p.s()
+			n.NoBcast = strings.HasPrefix(p.s(), ":")
 			_, port, _ := net.SplitHostPort(p.s())
 			n.TCPPort, _ = strconv.Atoi(port)
 			n.Version = p.s()
@@ -1724,6 +1948,32 @@ func vfE7ParseOp(line string) (vfE7VWorld, vfE7VReq) {
 			}
 		}
 		w.Nsqds = append(w.Nsqds, n)
+	}
+	if p.i < len(p.t) && p.t[p.i] == "I" {
+		p.next()
+		for k := p.n(); k > 0; k-- {
+			sym := p.s()
+			a := vfE7TopicAns{Topic: p.s()}
+			if p.next() == "F" {
+				a.LookupFail = 1
+			} else {
+				for j := p.n(); j > 0; j-- {
+					a.Lookup = append(a.Lookup, p.producer())
+				}
+			}
+			if p.next() == "F" {
+				a.ChannelsFail = 1
+			} else {
+				for j := p.n(); j > 0; j-- {
+					a.Channels = append(a.Channels, p.s())
+				}
+			}
+			for i := range w.Lookupds {
+				if w.Lookupds[i].Sym == sym {
+					w.Lookupds[i].PerTopic = append(w.Lookupds[i].PerTopic, a)
+				}
+			}
+		}
 	}
 	if p.i < len(p.t) && p.next() == "X" {
 		for k := p.n(); k > 0; k-- {
